@@ -23,6 +23,7 @@ import traceback
 
 VERIF = os.path.dirname(os.path.dirname(os.path.abspath(__file__)))
 PY = sys.executable
+OUT = os.environ.get("VERIF_OUT") or VERIF  # where evidence/ and replays/ are written
 
 
 class ViolationFound(Exception):
@@ -354,7 +355,7 @@ def run_check(modname, tier, seed, workers=None, out=sys.stdout):
 
 
 def write_replay(prop, failure, seed, tier):
-    os.makedirs(os.path.join(VERIF, "replays"), exist_ok=True)
+    os.makedirs(os.path.join(OUT, "replays"), exist_ok=True)
     body = dict(property=prop, verif_seed=seed, tier=tier, invariant=failure["violation"]["invariant"],
                 violation=failure["violation"])
     if "scenario" in failure:
@@ -363,7 +364,7 @@ def write_replay(prop, failure, seed, tier):
     else:
         body["job"] = failure["job"]
     d = digest({k: body[k] for k in body if k not in ("violation",)})
-    path = os.path.join(VERIF, "replays", "%s-%s.json" % (prop, d))
+    path = os.path.join(OUT, "replays", "%s-%s.json" % (prop, d))
     with open(path, "w") as f:
         f.write(json.dumps(body, indent=1, sort_keys=True, default=_jdefault))
     return path
@@ -437,8 +438,8 @@ def write_evidence(mod, prop, tier, seed, total, wall, n_viol, workers, skipped,
         wall_s=round(wall, 2),
         violations=int(n_viol),
     )
-    os.makedirs(os.path.join(VERIF, "evidence"), exist_ok=True)
-    p = os.path.join(VERIF, "evidence", "%s.json" % prop)
+    os.makedirs(os.path.join(OUT, "evidence"), exist_ok=True)
+    p = os.path.join(OUT, "evidence", "%s.json" % prop)
     with open(p, "w") as f:
         f.write(json.dumps(ev, indent=1, sort_keys=True, default=_jdefault))
 
